@@ -293,7 +293,7 @@ func c11RunConfig(h *vjHub, sv *c11Servers, idx int, c c11Cfg) c11Result {
 			time.Sleep(time.Millisecond)
 		}
 	}
-	check := func(tag string, t0 time.Time) string {
+	check := func(tag string, prev *jobResult) string {
 		r := h.result(id)
 		if r == nil {
 			return tag + ": no run result stored"
@@ -304,14 +304,18 @@ func c11RunConfig(h *vjHub, sv *c11Servers, idx int, c c11Cfg) c11Result {
 		if r.End.Before(r.Start) {
 			return fmt.Sprintf("%s: stored result ends (%v) before it starts (%v)", tag, r.End, r.Start)
 		}
-		if r.Start.Before(t0.Add(-time.Millisecond)) {
-			return fmt.Sprintf("%s: no result stored for this run (latest stored run started %v, this run was requested %v)", tag, r.Start, t0)
+		if prev != nil && r.Start.Equal(prev.Start) && r.End.Equal(prev.End) {
+			return fmt.Sprintf("%s: no result stored for this run (the stored result is still the one of the previous run, started %v)", tag, r.Start)
 		}
 		h.Runner.raffle.runningMu.Lock()
 		ti, tf, n := h.Runner.raffle.ticketsIncr, h.Runner.raffle.ticketsFull, len(h.Runner.raffle.runningJobs)
+		var who []string
+		for rid := range h.Runner.raffle.runningJobs {
+			who = append(who, rid)
+		}
 		h.Runner.raffle.runningMu.Unlock()
 		if n != 0 || ti != c11PoolIncr || tf != c11PoolFull {
-			return fmt.Sprintf("%s: run slots not released: running=%d ticketsIncr=%d/%d ticketsFull=%d/%d", tag, n, ti, c11PoolIncr, tf, c11PoolFull)
+			return fmt.Sprintf("%s: run slots not released: running=%d %v ticketsIncr=%d/%d ticketsFull=%d/%d", tag, n, who, ti, c11PoolIncr, tf, c11PoolFull)
 		}
 		if r.LastError == "" {
 			res.Outcomes = append(res.Outcomes, "success")
@@ -321,10 +325,10 @@ func c11RunConfig(h *vjHub, sv *c11Servers, idx int, c c11Cfg) c11Result {
 		return ""
 	}
 	// waitResult waits for an asynchronously started run to have stored its result.
-	waitResult := func(t0 time.Time) bool {
+	waitResult := func(prev *jobResult) bool {
 		deadline := time.Now().Add(c11Watchdog)
 		for time.Now().Before(deadline) {
-			if r := h.result(id); r != nil && !r.Start.Before(t0.Add(-time.Millisecond)) {
+			if r := h.result(id); r != nil && (prev == nil || !r.Start.Equal(prev.Start)) {
 				return true
 			}
 			time.Sleep(time.Millisecond)
@@ -342,7 +346,7 @@ func c11RunConfig(h *vjHub, sv *c11Servers, idx int, c c11Cfg) c11Result {
 		if run == 2 {
 			_ = h.write(src, []*kit.Ent{{ID: p + ":m9", Props: map[string]any{p + ":v": 9}, Refs: map[string]any{}}})
 		}
-		t0 := time.Now()
+		prev := h.result(id)
 		switch {
 		case run == 3:
 			// manual run (Scheduler.RunJob): asynchronous through the job runner
@@ -351,7 +355,7 @@ func c11RunConfig(h *vjHub, sv *c11Servers, idx int, c c11Cfg) c11Result {
 				res.Status, res.Detail = "violation", tag+": RunJob refused: "+err.Error()
 				return res
 			}
-			if !waitResult(t0) {
+			if !waitResult(prev) {
 				res.Status, res.Detail = "inconclusive", tag+": no result within the watchdog"
 				return res
 			}
@@ -381,7 +385,7 @@ func c11RunConfig(h *vjHub, sv *c11Servers, idx int, c c11Cfg) c11Result {
 			// the on-change subscription: emit the dataset event, the run happens on its own goroutine
 			tag += " (on-change event)"
 			h.Bus.Emit(context.Background(), "dataset."+src, nil)
-			if !waitResult(t0) {
+			if !waitResult(prev) {
 				res.Status, res.Detail = "inconclusive", tag+": no result within the watchdog"
 				return res
 			}
@@ -393,7 +397,7 @@ func c11RunConfig(h *vjHub, sv *c11Servers, idx int, c c11Cfg) c11Result {
 			res.Status, res.Detail = "inconclusive", tag+": "+msg
 			return res
 		}
-		if msg := check(tag, t0); msg != "" {
+		if msg := check(tag, prev); msg != "" {
 			res.Status, res.Detail = "violation", msg
 			return res
 		}
@@ -812,8 +816,8 @@ func (p *c11Probe) onLog(msg string) {
 	if nIncr > c11StormIncr || nFull > c11StormFull {
 		p.problems = append(p.problems, fmt.Sprintf("%d incremental and %d fullsync jobs running, pools are %d and %d", nIncr, nFull, c11StormIncr, c11StormFull))
 	}
-	if tI < 0 || tF < 0 {
-		p.problems = append(p.problems, fmt.Sprintf("negative tickets incr=%d full=%d", tI, tF))
+	if tI+nIncr != c11StormIncr || tF+nFull != c11StormFull {
+		p.problems = append(p.problems, fmt.Sprintf("slot accounting broken: ticketsIncr=%d with %d incremental running (pool %d), ticketsFull=%d with %d fullsync running (pool %d)", tI, nIncr, c11StormIncr, tF, nFull, c11StormFull))
 	}
 	if !listed {
 		p.problems = append(p.problems, fmt.Sprintf("job %s is transforming but is not in the running table", id))
@@ -837,19 +841,47 @@ function transform_entities(entities) {
 }`, c11StormPrefix, id, holdMs, c11StormPrefix, id, failBits)
 }
 
-func c11RunStorm(c c11Storm) (problem string, inconclusive bool, extra map[string]int) {
+// c11StormEnv: one hub for all storms of the process (a hub is only closed at
+// the very end, after a long pause, so that no late timer of an earlier storm
+// can meet a closed store); the log hook dispatches to the current probe.
+type c11StormEnv struct {
+	h     *vjHub
+	mu    sync.Mutex
+	probe *c11Probe
+	seq   int
+}
+
+func newC11StormEnv() *c11StormEnv {
 	_ = os.Setenv("JOB_FULLSYNC_RETRY_INTERVAL", "3ms")
-	probe := &c11Probe{inflight: map[string]int{}, enters: map[string]int{}}
-	h := newVJHub(vjOpts{Bus: true, PoolIncr: c11StormIncr, PoolFull: c11StormFull, CaptureLog: c11StormPrefix, OnLog: func(m string) { probe.onLog(m) }})
-	probe.raf = h.Runner.raffle
-	defer func() {
-		time.Sleep(30 * time.Millisecond)
-		h.close()
-	}()
+	env := &c11StormEnv{}
+	env.h = newVJHub(vjOpts{Bus: true, PoolIncr: c11StormIncr, PoolFull: c11StormFull, CaptureLog: c11StormPrefix, OnLog: func(m string) {
+		env.mu.Lock()
+		p := env.probe
+		env.mu.Unlock()
+		if p != nil {
+			p.onLog(m)
+		}
+	}})
+	return env
+}
+
+func (env *c11StormEnv) close() {
+	time.Sleep(400 * time.Millisecond)
+	env.h.close()
+}
+
+func (env *c11StormEnv) run(c c11Storm) (problem string, inconclusive bool, extra map[string]int) {
+	h := env.h
+	env.seq++
+	h.takeLogs()
+	probe := &c11Probe{inflight: map[string]int{}, enters: map[string]int{}, raf: h.Runner.raffle}
+	env.mu.Lock()
+	env.probe = probe
+	env.mu.Unlock()
 	ids := make([]string, c.Jobs)
 	for k := 0; k < c.Jobs; k++ {
-		ids[k] = fmt.Sprintf("storm%d", k)
-		topic := fmt.Sprintf("stormtopic%d", k)
+		ids[k] = fmt.Sprintf("storm%d-%d", env.seq, k)
+		topic := fmt.Sprintf("stormtopic%d-%d", env.seq, k)
 		h.createDataset(topic)
 		cronType := JobTypeIncremental
 		if c.FullCron[k] {
@@ -893,7 +925,7 @@ func c11RunStorm(c c11Storm) (problem string, inconclusive bool, extra map[strin
 					jobrunner.MainCron.Entry(eid).Job.Run()
 				}
 			case "event":
-				h.Bus.Emit(context.Background(), fmt.Sprintf("dataset.stormtopic%d", r.Job), nil)
+				h.Bus.Emit(context.Background(), fmt.Sprintf("dataset.stormtopic%d-%d", env.seq, r.Job), nil)
 			case "manual-incr":
 				_, _ = h.Sched.RunJob(id, JobTypeIncremental)
 			case "manual-full":
@@ -923,17 +955,38 @@ func c11RunStorm(c c11Storm) (problem string, inconclusive bool, extra map[strin
 		}
 		time.Sleep(time.Millisecond)
 	}
+	// slot accounting (consistent under the table's own mutex, whatever a late
+	// retry of an earlier storm may be doing): free tickets + running = pool
 	h.Runner.raffle.runningMu.Lock()
-	tI, tF, n := h.Runner.raffle.ticketsIncr, h.Runner.raffle.ticketsFull, len(h.Runner.raffle.runningJobs)
+	tI, tF, nI, nF := h.Runner.raffle.ticketsIncr, h.Runner.raffle.ticketsFull, 0, 0
+	mine := 0
+	for id, st := range h.Runner.raffle.runningJobs {
+		if st.isFull {
+			nF++
+		} else {
+			nI++
+		}
+		for _, my := range ids {
+			if my == id {
+				mine++
+			}
+		}
+	}
 	h.Runner.raffle.runningMu.Unlock()
+	for _, id := range ids {
+		_ = h.Sched.DeleteJob(id)
+	}
 	probe.mu.Lock()
 	defer probe.mu.Unlock()
 	if len(probe.problems) > 0 {
 		sort.Strings(probe.problems)
 		return probe.problems[0], false, nil
 	}
-	if n != 0 || tI != c11StormIncr || tF != c11StormFull {
-		return fmt.Sprintf("after the storm: running=%d ticketsIncr=%d/%d ticketsFull=%d/%d", n, tI, c11StormIncr, tF, c11StormFull), false, nil
+	if tI+nI != c11StormIncr || tF+nF != c11StormFull {
+		return fmt.Sprintf("after the storm: ticketsIncr=%d with %d incremental running (pool %d), ticketsFull=%d with %d fullsync running (pool %d)", tI, nI, c11StormIncr, tF, nF, c11StormFull), false, nil
+	}
+	if mine != 0 {
+		return "", true, nil // became active again after the calm period: not decidable here
 	}
 	for _, id := range ids {
 		if probe.enters[id] > 0 {
@@ -952,9 +1005,11 @@ func c11RunStorm(c c11Storm) (problem string, inconclusive bool, extra map[strin
 func TestVerif_C11_storm(t *testing.T) {
 	defer kit.S().Flush()
 	defer kit.CleanupScratch()
+	env := newC11StormEnv()
+	defer env.close()
 	exec := func(c c11Storm, fail func(format string, args ...any)) {
 		kit.Journal(c)
-		problem, inconcl, extra := c11RunStorm(c)
+		problem, inconcl, extra := env.run(c)
 		if strings.HasPrefix(problem, "VERIF-INFRA") {
 			fail("%s", problem)
 		}
